@@ -610,11 +610,24 @@ def step0 (_ : Unit) (ws : List String) : Unit × String × String × String :=
     ((), s!"{obs} | {detail}", spec, "")
   | _ => ((), "bad-op", "-", "")
 
+/-- `… rows=<n>` ↦ `… rows=-` -/
+def noRows (r : Unit × String × String × String) : Unit × String × String × String :=
+  match r.2.1.splitOn " rows=" with
+  | a :: _ :: _ => (r.1, a ++ " rows=-", r.2.2.1, r.2.2.2)
+  | _ => r
+
 /-- graph lines: the graph number is the harness's business, the facts are in the plan tokens -/
 def step (u : Unit) (ws : List String) : Unit × String × String × String :=
   match ws with
   | "qg" :: _ :: rest => step0 u ("q" :: rest)
   | "limg" :: _ :: rest => step0 u ("lim" :: rest)
+  -- nested variants: the plan tokens are those of the un-nested query; the row counter is not compared
+  | "qw" :: rest => noRows (step0 u ("q" :: rest))
+  | "qwg" :: _ :: rest => noRows (step0 u ("q" :: rest))
+  | "limw" :: rest => noRows (step0 u ("lim" :: rest))
+  | "limwg" :: _ :: rest => noRows (step0 u ("lim" :: rest))
+  | "wqw" :: rest => step0 u ("wq" :: rest)
+  | "wmw" :: rest => step0 u ("wm" :: rest)
   | _ => step0 u ws
 
 def stream : Stream := { σ := Unit, init := (), step := step }
